@@ -121,12 +121,24 @@ type c16Case struct {
 	// group indices, e.g. "0(1)2" = [g0, WithOptions(g1), g2]; "(" is
 	// WithOptions, "[" is With{Client,Handler}Options.
 	Tree string `json:"tree,omitempty"`
+	// FuncTypes: the interceptors are connect.UnaryInterceptorFunc values
+	// rather than values of the harness's struct type (unary calls only).
+	FuncTypes bool `json:"func_types,omitempty"`
+	// SharedLast: the LAST group is one option value that was first applied,
+	// behind a different leading interceptor, by another client and handler.
+	SharedLast bool `json:"shared_last,omitempty"`
 }
 
 func (k c16Case) key() string {
 	side := "handler"
 	if k.Client {
 		side = "client"
+	}
+	if k.FuncTypes {
+		side += "/functypes"
+	}
+	if k.SharedLast {
+		side += "/sharedlast"
 	}
 	if k.Tree != "" {
 		return fmt.Sprintf("n%d/nil%b/cuts%b/empty%d/tree%s/%s/%s/%s", k.N, k.NilMask, k.Cuts, k.Empty, k.Tree, k.Kind, side, k.Proto)
@@ -142,7 +154,11 @@ func (k c16Case) build(log *[]string) (clientOpts []connect.ClientOption, handle
 	items := make([]connect.Interceptor, k.N)
 	for i := 0; i < k.N; i++ {
 		if k.NilMask&(1<<i) == 0 {
-			items[i] = &logI{id: i + 1, log: log}
+			l := &logI{id: i + 1, log: log}
+			items[i] = l
+			if k.FuncTypes {
+				items[i] = connect.UnaryInterceptorFunc(l.WrapUnary)
+			}
 			flat = append(flat, i+1)
 		}
 	}
@@ -169,6 +185,15 @@ func (k c16Case) build(log *[]string) (clientOpts []connect.ClientOption, handle
 	opts := make([]connect.Option, len(groups))
 	for i, g := range groups {
 		opts[i] = connect.WithInterceptors(g...)
+	}
+	if k.SharedLast && len(opts) > 1 {
+		// the last group's option value has a history: another client and another
+		// handler applied it behind a different leading interceptor
+		var sink []string
+		foreign := connect.WithInterceptors(&logI{id: 99, log: &sink})
+		shared := opts[len(opts)-1]
+		_ = NewHandler(KUnary, func(context.Context, HStream) error { return nil }, foreign, shared)
+		_ = connect.NewClient[BV, BV](&memhttp.Transport{}, BaseURL+Procedure, foreign, shared)
 	}
 	if k.Tree != "" {
 		clientOpts, handlerOpts = c16BuildTree(k.Tree, opts)
@@ -650,6 +675,20 @@ func TestC16(t *testing.T) {
 				nonNil := k.N - popcount(k.NilMask)
 				c.Case(k.key(), nonNil > 0)
 				Bubble(t, func() { c16Check(c, k) })
+				if k.Empty < 0 && len(k.Wrap) == 1 && k.Wrap[0] == 0 && k.N >= 2 {
+					if kind == KUnary {
+						kf := k
+						kf.FuncTypes = true
+						c.Case(kf.key(), nonNil > 0)
+						Bubble(t, func() { c16Check(c, kf) })
+					}
+					if k.Cuts != 0 {
+						ks := k
+						ks.SharedLast = true
+						c.Case(ks.key(), nonNil > 0)
+						Bubble(t, func() { c16Check(c, ks) })
+					}
+				}
 				if idx%9973 == 0 {
 					c.Sample(map[string]any{"case": k.key(), "wrappers": c16WrapNames})
 				}
